@@ -183,6 +183,18 @@ def check_transfer(J, lib, part, item):
         mt.free()
         return
     states = H.states_for(mt, item["kind"], item["nstate"])
+    if mt.neq:
+        # equalities switched off at run time: d.ne drops below the model's static count, so the row blocks of the source
+        # MjData and of MJX's fixed layout no longer start at the same offsets (first equality off / all off)
+        for which in ("first", "all"):
+            st = {k_: np.array(v, copy=True) for k_, v in states[1 % len(states)].items()}
+            e = np.array(st["eq_active"], copy=True)
+            if which == "first":
+                e[0] = 1 - e[0]
+            else:
+                e[:] = 0
+            st["eq_active"] = e
+            states.append(st)
     fam = item["name"].split("#")[0]
     names = [f.name for f in J.types.Data.fields() if f.name != "_impl"] + [f.name for f in J.types.DataJAX.fields()]
     names = [n for n in names if n in mujoco.MjData.__dict__ and n not in ("contact",)]
